@@ -95,3 +95,25 @@ package config
 //@   loop 5
 //@     invariant 0 <= have && have <= numHave
 //@     invariant @C09 memS(SJ, profT(P, i), have) == memS(SJ, profT(P, i), 0)
+
+// ParseRDNSequence (C03): the pieces of the subject string (split at unescaped commas - loop 1, abstracted, covered by
+// the bounded stand-in) become, in REVERSED order, one single-valued RDN each: type from the short-name table or the
+// dotted OID, value the text after '=' unchanged (or the decoded #hex form).
+//@ func ParseRDNSequence returns (res, err)
+//@   props C03 C20
+//@   uses names.smt2 strings.smt2
+//@   bounded TestVerifBoundedRDN
+//@   ghostret PIECES (View String) = entry(2, seq(assertions))
+//@   let N = vlen(PIECES)
+//@   ensures @C03 err == nil ==> len(res) == N
+//@   ensures @C03 err == nil ==> (forall k in [0, N) :: rdnOk(PIECES[k]) && len(res[N - 1 - k]) == 1 && oidv(res[N - 1 - k][0].Type) == rdnType(PIECES[k]))
+//@   ensures @C03 err == nil ==> (forall k in [0, N) :: !isHexAttr(rdnVal(PIECES[k])) ==> typeis(res[N - 1 - k][0].Value, "string") && strOf(res[N - 1 - k][0].Value) == rdnVal(PIECES[k]))
+//@   ensures @C03,C09 err == nil ==> (forall k in [0, len(res)) :: len(res[k]) >= 1)
+//@   ensures err != nil ==> res == nil
+//@   loop 1 abstract range over the runes of a string (outside the subset)
+//@     invariant 0 <= assertBegin && assertBegin <= len(s)
+//@   loop 2
+//@     invariant 0 <= idx && idx <= len(assertions) && len(out) == len(assertions)
+//@     invariant @C03 forall k in [0, idx) :: rdnOk(assertions[k]) && len(out[len(out) - 1 - k]) == 1 && oidv(out[len(out) - 1 - k][0].Type) == rdnType(assertions[k])
+//@     invariant @C03 forall k in [0, idx) :: !isHexAttr(rdnVal(assertions[k])) ==> typeis(out[len(out) - 1 - k][0].Value, "string") && strOf(out[len(out) - 1 - k][0].Value) == rdnVal(assertions[k])
+//@     invariant @C03,C09 forall k in [0, idx) :: len(out[len(out) - 1 - k]) >= 1 && allocated(out[len(out) - 1 - k])
